@@ -334,6 +334,25 @@ def find_memo_site(program, key):
                 txt(node.left) == kvar and txt(node.comparators[0]) == cache:
             test = node
     if test is None:
+        # `hit = cache.get(key)` followed by `if hit is not None:` / `if hit:`
+        got = {}
+        for node in walk_local(func.node):
+            if isinstance(node, ast.Assign) and len(node.targets) == 1 and \
+                    isinstance(node.targets[0], ast.Name) and isinstance(
+                        node.value, ast.Call) and call_name(node.value) == \
+                    'get' and receiver(node.value) is not None and txt(
+                        receiver(node.value)) == cache and node.value.args \
+                    and txt(node.value.args[0]) == kvar:
+                got[node.targets[0].id] = node
+        for node in walk_local(func.node):
+            if isinstance(node, ast.If):
+                names = {n.id for n in ast.walk(node.test)
+                         if isinstance(n, ast.Name)}
+                if names & set(got) and any(
+                        isinstance(s, ast.Return) for s in node.body +
+                        node.orelse):
+                    test = node.test
+    if test is None:
         raise AnalysisError(f'KEY: no membership test {kvar} in {cache}')
     fld = _field_of(store.targets[0].value)
     level = 'instance'
@@ -559,7 +578,11 @@ def check_key(ctx):
                     for sub in walk_local(site.func.node):
                         if isinstance(sub, ast.Assign) and txt(
                                 sub.targets[0]) == val.id and txt(
-                                    sub.value) == f'{site.cache}[{site.key}]':
+                                    sub.value) in (
+                                        f'{site.cache}[{site.key}]',
+                                        f'{site.cache}.get({site.key})',
+                                        f'{site.cache}.get({site.key}, '
+                                        f'None)'):
                             ret_ok = True
         ctx.decide('KEY-HIT', site.func, f'a hit returns {site.cache}'
                    f'[{site.key}] (identical requests get the same task)',
@@ -569,7 +592,8 @@ def check_key(ctx):
                         if isinstance(n, ast.Return)),
                        key=lambda n: n.lineno)
         ctx.decide('KEY-HIT', site.func, f'a miss stores and returns '
-                   f'{site.new}', txt(last_ret.value) == site.new,
+                   f'{site.new}', txt(last_ret.value) in (
+                       site.new, f'{site.cache}[{site.key}]'),
                    at=site.func.where(last_ret), nontrivial=False)
     ctx.floor('KEY', n, 2, 'memo functions (Use.get_task, '
               'RunTaskFactory.make)')
@@ -752,6 +776,13 @@ def check_close_fields(ctx):
         if isinstance(node, ast.Assign) and _field_of(node.targets[0]) and \
                 isinstance(node.value, ast.Call) and call_name(
                     node.value) == 'set' and not node.value.args:
+            fields.append(_field_of(node.targets[0]))
+    # however the sets are built (a validating helper, a comprehension):
+    # the attributes of the task that hold its dependencies
+    for node in walk_local(init.node):
+        if isinstance(node, ast.Assign) and _field_of(node.targets[0]) and \
+                'depend' in _field_of(node.targets[0]) and \
+                _field_of(node.targets[0]) not in fields:
             fields.append(_field_of(node.targets[0]))
     fed = {}
     for node in walk_local(init.node):
